@@ -1,10 +1,11 @@
 ---------------------------- MODULE MC_Calendar -----------------------------
 (***************************************************************************)
 (* The calendar specification validates itself.  The initial states are    *)
-(* all 36 525 days of the century at 00:00:00.000; from there a behaviour  *)
-(* visits the last millisecond of the day and steps into the next day,     *)
-(* and on every WalkEvery-th day (plus the leap-day neighbourhood and both *)
-(* ends) every minute boundary -1 / 0 / +1 ms.  On every state             *)
+(* the 100 new-year midnights; from each a behaviour walks through all     *)
+(* days of the year (first and last millisecond of each, stepping into the *)
+(* next day), and on every WalkEvery-th day (plus the leap-day             *)
+(* neighbourhood and both ends of the century) through every minute        *)
+(* boundary -1 / 0 / +1 ms.  All 36 525 days are visited.  On every state  *)
 (*   * Civil(day) (table lookup) of the first day is Saturday 2000-01-01   *)
 (*     and Civil(day + 1) is the successor date of Civil(day) computed     *)
 (*     from month lengths only: by induction Civil is the day-by-day walk  *)
@@ -17,11 +18,13 @@
 (*     transition, day boundaries included);                               *)
 (*   * the pattern format is read back by the fixed-width parser, and the  *)
 (*     lenience set Required of DateFormat is sound and tight with respect *)
-(*     to date normalisation for a set of clock dates.                     *)
+(*     to date normalisation for a set of clock dates (the two expensive   *)
+(*     families are evaluated on every HeavyEvery-th day resp. on the four *)
+(*     years 2000..2003, which contain every (leap, month, day) case).     *)
 (***************************************************************************)
 EXTENDS DateFormat, TLC
 
-CONSTANT WalkEvery
+CONSTANTS WalkEvery, HeavyEvery
 
 \* the civil date of the current day
 walk == Civil(now.day)
@@ -50,7 +53,7 @@ Zeller(y, m, d) ==
       h  == (d + (13 * (mm + 1)) \div 5 + K + K \div 4 + J \div 4 + 5 * J) % 7    \* 0 = Saturday
   IN (h + 5) % 7
 
-SpecialDays == {0, 1, 58, 59, 60, 365, 366, 1154, 1155, NDays - 2, NDays - 1}
+SpecialDays == {0, 59, 60, 365, 366, NDays - 1}
 IsWalkDay(d) == d % WalkEvery = 0 \/ d \in SpecialDays
 
 NextMs(ms) == IF ms % 60000 = 1 THEN ms + 59998 ELSE ms + 1      \* ..0 -> ..1 -> 59999 -> 60000
@@ -59,7 +62,7 @@ NextInstant(t) ==
   ELSE IF IsWalkDay(t.day) THEN [day |-> t.day, ms |-> NextMs(t.ms)]
   ELSE [day |-> t.day, ms |-> MsPerDay - 1]
 
-MCInit == \E d \in Days : now = [day |-> d, ms |-> 0] /\ obs = Helpers(now)
+MCInit == \E y \in Years : now = [day |-> YearStart(y), ms |-> 0] /\ obs = Helpers(now)
 MCNext == LET n == NextInstant(now) IN n.day < NDays /\ Observe(n)
 MCSpec == MCInit /\ [][MCNext]_vars
 
@@ -94,7 +97,7 @@ MCPatterns == {
   <<im, dash, id>>, <<id>>, <<iy, sp, im>>, <<dash>>, <<>> }
 
 FormatRoundTrip ==
-  (now.ms \in {0, 1, 43200000, MsPerDay - 1}) =>
+  (now.ms \in {0, 1, 43200000, MsPerDay - 1} /\ (now.day % HeavyEvery = 0 \/ now.day \in SpecialDays)) =>
      \A p \in MCPatterns : /\ IsPattern(p)
                            /\ RoundTripModel(p, now)
                            /\ RoundTripOK(p, now, now)
@@ -111,7 +114,7 @@ DF(f, c) == CASE f = LY -> c.y [] f = LMo -> c.m [] f = LD -> c.d
 \* Required is sound (a required field survives whatever the clock supplies for the absent ones)
 \* and tight (a present date field that is not required is changed by some clock date)
 RequiredExact ==
-  now.ms = 0 =>
+  (now.ms = 0 /\ now.day < YearStart(2004)) =>
     \A P \in SUBSET DateLetters :
       /\ \A f \in Required(P, walk) : \A k \in ClockDates : DF(f, Filled(P, walk, k)) = DF(f, walk)
       /\ \A f \in P \ Required(P, walk) : \E k \in ClockDates : DF(f, Filled(P, walk, k)) # DF(f, walk)
